@@ -241,6 +241,20 @@ class _Fold(ast.NodeTransformer):
 
     def visit_Subscript(self, n):
         self.generic_visit(n)
+        # x[slice(a, b)] is x[a:b]
+        def as_slice(e):
+            if isinstance(e, ast.Call) and isinstance(e.func, ast.Name) and e.func.id == 'slice' and not e.keywords and \
+                    1 <= len(e.args) <= 3 and not any(isinstance(a, ast.Starred) for a in e.args):
+                none = lambda a: None if isinstance(a, ast.Constant) and a.value is None else a
+                if len(e.args) == 1:
+                    return ast.copy_location(ast.Slice(lower=None, upper=none(e.args[0]), step=None), e)
+                return ast.copy_location(ast.Slice(lower=none(e.args[0]), upper=none(e.args[1]),
+                                                   step=none(e.args[2]) if len(e.args) == 3 else None), e)
+            return e
+        if isinstance(n.slice, ast.Tuple):
+            n.slice.elts = [as_slice(x) for x in n.slice.elts]
+        else:
+            n.slice = as_slice(n.slice)
         if isinstance(n.ctx, ast.Load) and isinstance(n.value, ast.Tuple) and isinstance(n.slice, ast.Constant) and \
                 isinstance(n.slice.value, int) and not isinstance(n.slice.value, bool) and \
                 -len(n.value.elts) <= n.slice.value < len(n.value.elts) and \
